@@ -14,8 +14,21 @@ the request (`C05_self_update`); an ignore-failure update that conflicts contrib
 and raises no error (`C05_ignored_drop`); a failing non-ignored update fails the request
 (`C05_conflict_fails`). "Exactly the fields plugins set, each from its single owner" is proved
 per applied update (`C05_applied_fields`: the entry becomes its base overlaid with the
-update, field by field) — the chain-level value statement is evaluated on every generated
-chain by the correspondence run (`exactFields`) and is not proved: partial.
+update, field by field) and at chain level:
+
+The chain-level value statement — the one the correspondence run evaluates on every generated
+chain (`Driver/Merge.lean: exactFields`) — is proved for all chains by refinement of the
+state-free specification walk `Nri.UpdateWalk.walk` (`C05_walk_refines`, `C05_exact_fields`):
+every returned entry carries, as a structurally equal `Resources` value (no canonical form
+needed), what the walk yields for its target. Corollaries: every entry is its base overlaid in
+order with exactly the updates the walk applies to its target (`C05_entry_overlay`), an
+ignore-failure update that names a taken item is not among them
+(`C05_ignored_drop_chain`), and each scalar / unified key of an entry is the value of the one
+applied update that set it, or the base value (`C05_single_source`).
+Hypothesis of these theorems (a guard of the property's domain, implied by the driver's
+`dupWithin` guard): no update marked ignore-failure names one item twice (`NoDupItems`; an
+unmarked update that does fails the request). It cannot be dropped: `C05_walk_needs_nodup`
+is a chain with a repeated hugepage size on which walk and model differ.
 -/
 namespace Nri.Props.C05
 open Nri Nri.NApi Nri.Result Nri.Ledger Nri.UpdateWalk
@@ -164,7 +177,7 @@ private def req3 : Resources := { pids := some 5 }
 private def base3 : Cid → Resources := specBase (.update (str "c0")) req3
 
 /-- **The model refines the walk.** For a request started in a fresh collector state and a chain
-    in which no single update names one item twice, after a successful request
+    in which no ignore-failure update names one item twice, after a successful request
     (i) every entry of the reply's update list (third-party entries and the own entry) carries
     exactly the resources the specification walk yields for its target, and
     (ii) a `(target, item)` pair is taken in the walk iff it has an owner in the ledger (for
@@ -186,7 +199,7 @@ theorem C05_walk_refines (st0 st' : State) (rs : List (Plugin × Response))
 -- chain3 satisfies the hypotheses; the walk holds pids 1 / quota 4 / no shares for ctrA, and the
 -- dropped update's claim of cpu shares is taken in the walk and owned (by 20-b) in the ledger
 example :
-    (∀ u ∈ flatUpdates chain3, (setsUpd u).Nodup) ∧
+    (∀ u ∈ flatUpdates chain3, u.ignoreFailure = true → (setsUpd u).Nodup) ∧
     (let r := (walk base3 chain3).get base3 (str "ctrA")
      (r.pids, (r.cpu.getD {}).shares, (r.cpu.getD {}).quota)) = (some 1, none, some 4) ∧
     (walk base3 chain3).taken.contains (str "ctrA", Item.cpuShares) = true ∧
@@ -224,6 +237,26 @@ example :
          (e.containerId, decide (e.resources = some ((walk base3 chain3).get base3 e.containerId)))
      | .error _ => []) = [some (str "ctrA", true), some (str "c0", true)] := by decide
 
+
+/-- **Exact fields, chains with unsubscribed or dropped plugins.** The same for a chain in which
+    some plugins do not answer (`none`): the walk runs over the plugins that did. -/
+theorem C05_exact_fields_dropped (st0 st' : State) (req : Resources) (rs : List (Plugin × Option Response))
+    (hinit : (∃ id, st0 = initUpdate id req) ∨ st0 = initStop ∨ ∃ c0, st0 = initCreate c0)
+    (hnd : NoDupItems (flatUpdates (answered rs)))
+    (h : run Quirks.fixed st0 rs = .ok st') :
+    ∀ e, some e ∈ replyUpdates st' →
+      e.resources = some ((walk (specBase st0.kind req) (answered rs)).get (specBase st0.kind req) e.containerId) :=
+  C05_exact_fields st0 st' req (answered rs) hinit hnd (by rw [← run_answered]; exact h)
+
+-- chain3 with a plugin that is not subscribed between the second and the third
+example :
+    let rs : List (Plugin × Option Response) :=
+      (answeredAll (chain3.take 2)) ++ (str "25-x", none) :: answeredAll (chain3.drop 2)
+    (answered rs).map (fun x => (x.1, x.2.updates)) = chain3.map (fun x => (x.1, x.2.updates)) ∧
+    (match run Quirks.fixed (initUpdate (str "c0") req3) rs with
+     | .ok st => (replyUpdates st).map fun (e : Option Update) => e.map fun (e : Update) =>
+         (e.containerId, decide (e.resources = some ((walk base3 (answered rs)).get base3 e.containerId)))
+     | .error _ => []) = [some (str "ctrA", true), some (str "c0", true)] := by decide
 
 /-- **Entries are overlays of the applied updates.** Every returned entry is its base overlaid,
     in chain order, with exactly the updates the walk applies to its target — nothing of any
@@ -318,7 +351,7 @@ theorem C05_single_source (st0 st' : State) (rs : List (Plugin × Response))
   · left
     obtain ⟨u, hu, hitu⟩ := hex
     obtain ⟨pre, post, happ⟩ := List.append_of_mem hu
-    obtain ⟨hmem, r, hr⟩ := appliedFrom_mem (baseOf st0) (flatUpdates rs) {} u (List.mem_filter.1 hu).1
+    obtain ⟨_, hndu, r, hr⟩ := appliedFrom_mem (baseOf st0) (flatUpdates rs) {} u (List.mem_filter.1 hu).1
     rw [happ] at hpw
     obtain ⟨_, hpw2, hpw3⟩ := List.pairwise_append.1 hpw
     have hpost : ∀ v ∈ post, it ∉ setsUpd v := fun v hv => (List.pairwise_cons.1 hpw2).1 v hv it hitu
@@ -329,7 +362,7 @@ theorem C05_single_source (st0 st' : State) (rs : List (Plugin × Response))
       · exact hpre v hv
       · exact hpost v hv
     · rw [hres', happ]
-      exact fold_field_set it pre post u r _ hr (hnd u hmem) hitu hpost
+      exact fold_field_set it pre post u r _ hr hndu hitu hpost
   · right
     have hnone : ∀ v ∈ app, it ∉ setsUpd v := fun v hv hitv => hex ⟨v, hv, hitv⟩
     exact ⟨hnone, by rw [hres']; exact fold_field_keep it app _ hnone⟩
@@ -355,7 +388,7 @@ theorem C05_walk_needs_nodup :
           { hugepages := [{ pageSize := str "2M", limit := 1 }, { pageSize := str "2M", limit := 2 }],
             blockioClass := some (str "x") } true] }),
        (str "20-b", { updates := [updOf (str "ctrA") { blockioClass := some (str "y") }] })]
-    ¬ (∀ u ∈ flatUpdates dup, (setsUpd u).Nodup) ∧
+    ¬ (∀ u ∈ flatUpdates dup, u.ignoreFailure = true → (setsUpd u).Nodup) ∧
     (match run Quirks.fixed initStop (answeredAll dup) with
      | .ok st => st.updates.map fun e => (e.resources.getD {}).blockioClass
      | .error _ => []) = [some (str "y")] ∧
